@@ -533,7 +533,7 @@ impl Property for C04 {
 
 static DIRNO: AtomicU64 = AtomicU64::new(0);
 fn scratch() -> PathBuf {
-    let base = if Path::new("/dev/shm").is_dir() { PathBuf::from("/dev/shm") } else { std::env::temp_dir() };
+    let base = scratch_base();
     base.join(format!("simcheck-c04-{}-{}", std::process::id(), DIRNO.fetch_add(1, Ordering::Relaxed)))
 }
 struct RmOnDrop(PathBuf);
